@@ -238,7 +238,12 @@ static std::string stepLine(State& s, const std::vector<std::string>& w)
     {
         Bytes d;
         if (!parseBytes(w[12], d)) return "bad-op";
-        Packet p;
+        Bytes tb;
+        if (w[2] != "none" && (!parseBytes(w[2], tb) || tb.empty() || tb.size() > 4)) return "bad-op";
+        // constructed IN PLACE and filled through the setters: no copy, move or assignment of the library's value types is involved in
+        // defining a packet — those are exercised (and judged) by the `pk` operations only
+        s.pkts.erase(w[1]);
+        Packet& p = s.pkts.emplace(std::piecewise_construct, std::forward_as_tuple(w[1]), std::forward_as_tuple()).first->second;
         p.setVersion(static_cast<uint8_t>(nat(w[3])));
         p.setDeviceId(static_cast<uint16_t>(nat(w[4])));
         p.setStreamId(static_cast<uint8_t>(nat(w[5])));
@@ -250,16 +255,12 @@ static std::string stepLine(State& s, const std::vector<std::string>& w)
         p.setSegmentType(static_cast<MessageHeader::SegmentType>(nat(w[11])));
         if (w[2] != "none")
         {
-            Bytes tb;
-            if (!parseBytes(w[2], tb) || tb.empty() || tb.size() > 4) return "bad-op";
             uint32_t ty = 0;
             for (auto x : tb) ty = (ty << 8) | x;
             HeapBuf hb(d);
             Payload pl(PayloadType(ty), hb.p, hb.n);
             p.setPayload(pl);
         }
-        s.pkts.erase(w[1]);
-        s.pkts.emplace(w[1], p);   // copy construction; the assignment operators are exercised by the `pk` operations only
         return "ok";
     }
     if (w[0] == "enc" && w.size() >= 3)
@@ -403,7 +404,7 @@ __attribute__((noinline)) static void paintStack(int pattern)
 #include <thread>
 // --threads N: the cases of the script are distributed over N threads, each with its own State (its own
 // Encoder / Decoder / Status objects); outputs are printed in script order after all threads joined (C19)
-static int runThreaded(int n)
+static int runThreaded(int n, bool all = false)
 {
     std::vector<std::vector<std::vector<std::string>>> cases;   // case -> op -> words
     std::string line;
@@ -414,6 +415,33 @@ static int runThreaded(int n)
         auto w = split(line, ' ');
         if (w[0] == "case" || cases.empty()) cases.emplace_back();
         cases.back().push_back(w);
+    }
+    if (all)
+    {
+        // every thread runs EVERY case on its own objects: each code path of the library is executed by all threads, so any shared
+        // mutable static is touched by several threads without synchronisation (what ThreadSanitizer needs to see)
+        std::vector<std::vector<std::vector<std::string>>> outsT(n, std::vector<std::vector<std::string>>(cases.size()));
+        std::vector<std::thread> ts;
+        for (int t = 0; t < n; ++t)
+        {
+            ts.emplace_back([&, t]() {
+                State s;
+                for (size_t k = 0; k < cases.size(); ++k)
+                {
+                    size_t c = (k + t * (cases.size() / n + 1)) % cases.size();   // staggered start
+                    for (auto& w : cases[c]) outsT[t][c].push_back(stepLine(s, w));
+                }
+            });
+        }
+        for (auto& t : ts) t.join();
+        int bad = 0;
+        for (int t = 1; t < n; ++t)
+            if (outsT[t] != outsT[0]) ++bad;
+        for (auto& o : outsT[0])
+            for (auto& l : o) std::cout << l << "\n";
+        std::cout << std::flush;
+        if (bad) { std::cerr << "THREAD-MISMATCH " << bad << " thread(s) differ from thread 0\n"; return 3; }
+        return 0;
     }
     std::vector<std::vector<std::string>> outs(cases.size());
     std::vector<std::thread> ts;
@@ -436,6 +464,7 @@ int main(int argc, char** argv)
 {
     std::ios::sync_with_stdio(false);
     if (argc == 3 && std::string(argv[1]) == "--threads") return runThreaded(std::atoi(argv[2]));
+    if (argc == 4 && std::string(argv[1]) == "--threads" && std::string(argv[3]) == "--all") return runThreaded(std::atoi(argv[2]), true);
     if (const char* f = std::getenv("VERIF_STACK_FILL")) g_stackFill = std::atoi(f);
     State s;
     std::string line;
